@@ -1,6 +1,6 @@
 (* Non-vacuity: the hypotheses of the theorems are met by concrete,
    non-trivial instances, and the conclusions are visibly non-trivial. *)
-From V Require Import Common.Base C05.Syntax C05.Sem C05.Lower C05.Frame C05.LowerProofs C05.SimLogic C05.Steps C05.Compose C05.Visit C05.Chain C05.Chain2 C05.Above C05.Visit2 C05.Witness.
+From V Require Import Common.Base C05.Syntax C05.Sem C05.Lower C05.Frame C05.LowerProofs C05.SimLogic C05.Steps C05.Compose C05.Visit C05.Chain C05.Chain2 C05.Above C05.Visit2 C05.Witness C05.Private C05.PrivateProofs.
 
 (* f() ?? g() : the left operand is captured in a temporary *)
 Definition ex_a := ECall (EId 3) [] OcNone.
@@ -179,3 +179,64 @@ Example ex_c1_lowered :
         (EDelete (EDot (ECallThis (ETmp 1) (EId 3)
                           [EIf (EEqNull true (EAssign (ETmp 0) ex_a)) (ETmp 0) (ENum 2)]) 2 OcNone)).
 Proof. reflexivity. Qed.
+
+(* ---- private names ---- *)
+(* c.#p ??= 5 with c a constant binding of an object that carries the brand:
+   the model's output, the hypotheses of private_logical_assign_equiv, and the
+   (non-trivial) common behaviour: getter called on object 1, then the setter *)
+Definition ex_priv_log := PLog LNullish (EId 7) 2 (ENum 5).
+Example ex_priv_log_lowered :
+  fst (plower pwit_names all_features ex_priv_log 0)
+  = HIf (HNeNull (HTmpSet 0 (HGet (PE (EId 7)) 11 (Some 20)))) (PE (ETmp 0))
+        (HSet (PE (EId 7)) 11 (PE (ENum 5)) (Some 21)).
+Proof. reflexivity. Qed.
+Example ex_priv_log_hyps : pform_ok Z pwit_world pterr pwit_names ex_priv_log 0.
+Proof.
+  cbn. split.
+  - right. exists (Ok (VObj 1)). intro s. reflexivity.
+  - intros k _. cbn. tauto.
+Qed.
+Example ex_priv_log_sound : pwit_lowered ex_priv_log = pwit_native ex_priv_log.
+Proof.
+  unfold pwit_lowered, pwit_native.
+  apply (plower_sound Z pwit_world VUndef pterr pwit_names pwit_fobj pwit_isset pwit_call_intact pwit_store
+           all_features ex_priv_log 0 ex_priv_log_hyps).
+Qed.
+Example ex_priv_log_trace :
+  fst (fst (pwit_native ex_priv_log)) = [(8, [VObj 1]); (9, [VObj 1; VNum 5])].
+Proof. reflexivity. Qed.
+
+(* g().#m(g()) : method call through a captured target *)
+Definition ex_priv_call := PCall (ECall (EId 3) [] OcNone) 4 [ECall (EId 3) [] OcNone].
+Example ex_priv_call_lowered :
+  fst (plower pwit_names all_features ex_priv_call 0)
+  = HCallCall (HMethod (PE (EAssign (ETmp 0) (ECall (EId 3) [] OcNone))) 11 22) (PE (ETmp 0)) [ECall (EId 3) [] OcNone].
+Proof. reflexivity. Qed.
+Example ex_priv_call_hyps : pform_ok Z pwit_world pterr pwit_names ex_priv_call 0.
+Proof. cbn. split; [left; reflexivity | split; tauto]. Qed.
+(* the target evaluates to a number here: both sides throw the TypeError after the target's call event *)
+Example ex_priv_call_sound : pwit_lowered ex_priv_call = pwit_native ex_priv_call.
+Proof.
+  apply (plower_sound Z pwit_world VUndef pterr pwit_names pwit_fobj pwit_isset pwit_call_intact pwit_store
+           all_features ex_priv_call 0 ex_priv_call_hyps).
+Qed.
+(* c.#m(g()) on the object that has the brand: the method is called with this = object 1 *)
+Example ex_priv_call_trace :
+  pwit_native (PCall (EId 7) 4 [ECall (EId 3) [] OcNone])
+  = ([(4, [VObj 100; VUndef]); (4, [VObj 202; VObj 1; VNum 7])], pwit_state, Ok (VNum 7)).
+Proof. reflexivity. Qed.
+
+(* c.#f -= g()  on a field *)
+Example ex_priv_arith_hyps : pform_ok Z pwit_world pterr pwit_names (PArith BSub (EId 7) 1 (ECall (EId 3) [] OcNone)) 0.
+Proof.
+  cbn. split; [left; reflexivity |]. split; [right; exists (Ok (VObj 1)); intro s; reflexivity |]. tauto.
+Qed.
+Example ex_priv_arith_trace :
+  fst (fst (pwit_lowered (PArith BSub (EId 7) 1 (ECall (EId 3) [] OcNone))))
+  = [(4, [VObj 100; VUndef]); (7, [VUndef; VNum 7])].
+Proof. reflexivity. Qed.
+
+(* constructor prologue: brand, then two fields *)
+Example ex_priv_init_hyps :
+  Forall (pinit_ok pwit_names pwit_isset) [IBrand 11; IField 1 (ENum 3); IField 5 (ECall (EId 3) [] OcNone)].
+Proof. repeat constructor. Qed.
